@@ -591,6 +591,28 @@ theorem annual_network_cost_code_eq_doc (pi eff : Rat) (t : CostTables) (exp ln 
       intro x _; simp [valveRow, itemCost, lookup]
       split_ifs <;> simp_all
 
+section
+open Wntr.Pattern
+/-- one junction's demand list and the options `expected_demand` reads; times are whole seconds -/
+def demandEnv (net : DemandNet) (cat : Option String) (l : List TS) : Env :=
+  { glob := { num := fun | .patternStart => net.patternStart | .demandMultiplier => net.dm | _ => 0 },
+    f2 := fun | .demandsAt => fun t m => demandsAt l net.step net.interp cat m t.floor
+              | .demandsAtAll => fun t m => demandsAt l net.step net.interp none m t.floor
+              | .rpow => fun x _ => x }
+
+/-- **`expected_demand`, as extracted from the source, is Demands.at(ts + pattern_start, multiplier = demand
+multiplier, category = category)** — the time origin (`+ pattern_start`), the multiplier and the category all enter -/
+theorem expected_demand_code_eq_doc (net : DemandNet) (cat : Option String) (l : List TS) (ts : Int) :
+    evalO (demandEnv net cat l) { num := fun | .ts => ts | _ => 0 } Gen.expected_demand
+      = some (expectedDemand net cat l ts) := by
+  have hf : ((ts : Rat) + (net.patternStart : Rat)).floor = ts + net.patternStart := by
+    have := Rat.floor_intCast (ts + net.patternStart)
+    push_cast at this
+    exact this
+  have hf' : ((net.patternStart : Rat) + (ts : Rat)).floor = ts + net.patternStart := by rw [add_comm]; exact hf
+  simp [Gen.expected_demand, evalO, ok, eval, demandEnv, expectedDemand, hf, hf']
+end
+
 /-! ### the documented efficiency of the maximum pump power (known finding `annual_network_cost-pump-efficiency`) -/
 
 def genTables : CostTables := { tank := Gen.tankCost, pipe := Gen.pipeCost, prv := Gen.prvCost, pump := Gen.pumpCost }
@@ -621,6 +643,51 @@ theorem annual_network_cost_efficiency_partial (pi eff eff' : Rat) (t : CostTabl
       = some (annualNetworkCost pi t (costItems eff' exp ln rpow n)) := by
   rw [annual_network_cost_code_eq_doc pi eff t exp ln rpow n row ht he (by simp [h1]) hk]
   simp [costItems, h1, h2]
+
+/-! ### what the documentation says about the values -/
+
+/-- resilience.rst:300 "ranges between 0 and 1" — true of a cylindrical tank for levels between 0 and `max_level` -/
+theorem tankCapacity_cylinder_range (pi d maxLevel level : Rat) (hpi : 0 < pi) (hd : d ≠ 0) (hm : 0 < maxLevel)
+    (h0 : 0 ≤ level) (h1 : level ≤ maxLevel) :
+    ∃ c, tankCapacity pi (.cyl d) maxLevel level = some c ∧ 0 ≤ c ∧ c ≤ 1 := by
+  refine ⟨level / maxLevel, tankCapacity_cylinder pi d maxLevel level (ne_of_gt hpi) hd (ne_of_gt hm), ?_, ?_⟩
+  · exact div_nonneg h0 (le_of_lt hm)
+  · rw [div_le_one hm]; exact h1
+
+/-- hydraulic.py:238 "as a system average": the system MRI is the average of the per-junction indices weighted with
+the minimum required power `d·(P* + z)` of each junction -/
+theorem mriSystem_weighted_average (pstar : Rat) (rows : List (Rat × Rat × Rat))
+    (hz : ∀ r ∈ rows, pstar + r.2.2 ≠ 0) :
+    mriSystem pstar rows
+      = divz (lsum (rows.map fun r => r.1 * (pstar + r.2.2) * ((r.2.1 - pstar) / (pstar + r.2.2))))
+          (lsum (rows.map fun r => r.1 * (pstar + r.2.2))) := by
+  have e1 : lsum (rows.map fun (d, p, z) => d * (p + z)) - lsum (rows.map fun (d, _, z) => d * (pstar + z))
+      = lsum (rows.map fun r => r.1 * (pstar + r.2.2) * ((r.2.1 - pstar) / (pstar + r.2.2))) := by
+    rw [← lsum_map_sub]
+    apply lsum_map_congr
+    rintro ⟨d, p, z⟩ hr
+    have := hz _ hr
+    simp only at this ⊢
+    field_simp
+    ring
+  have e2 : lsum (rows.map fun (d, _, z) => d * (pstar + z)) = lsum (rows.map fun r => r.1 * (pstar + r.2.2)) := by
+    apply lsum_map_congr
+    rintro ⟨d, p, z⟩ _
+    rfl
+  show divz (lsum (rows.map fun (d, p, z) => d * (p + z)) - lsum (rows.map fun (d, _, z) => d * (pstar + z)))
+    (lsum (rows.map fun (d, _, z) => d * (pstar + z))) = _
+  rw [e1, e2]
+
+/-- a network without reservoirs and pumps (fed by tanks): no input power term is left -/
+theorem todini_no_sources (pstar : Rat) (js : List JRow) :
+    todini pstar js [] [] = divz (lsum (js.map fun j => j.d * j.h) - lsum (js.map fun j => j.d * (pstar + (j.h - j.p))))
+      (-(lsum (js.map fun j => j.d * (pstar + (j.h - j.p))))) := by
+  simp [todini, lsum]
+
+/-- the population impacted at a node is either its whole population or nothing -/
+theorem populationImpacted_le (m : Bool) (pop : Rat) (h : 0 ≤ pop) :
+    0 ≤ populationImpacted m pop ∧ populationImpacted m pop ≤ pop := by
+  cases m <;> simp [populationImpacted, h]
 
 /-! ### non-vacuity: the generated terms evaluated on concrete tables -/
 
